@@ -8,10 +8,19 @@
    stops, any number of processes) after which no munged is running; [starts_and_crashes sched] =
    the property's quantifier (no clean stop inside); [past_setlk s p] = p is running and has passed
    F_SETLK; [holder s p] = the lock path names an inode, p holds its lock through its descriptor;
-   [serving s p] = p is at job_accept and the lock, socket and pid names all lead to p. *)
+   [serving s p] = p is at job_accept and the lock, socket and pid names all lead to p.
+
+   Second half (the C15_path theorems): StartPathModel — the same program with every name a byte string computed as the
+   source computes it (lock name = strdupf "%s.lock" with its buffer limit; bound name = what strlcpy left in
+   sun_path; length test translated from sock_create's text; sizes regenerated), a file system keyed by byte
+   strings, one configuration per process.  For EVERY configured socket path the start is refused without binding,
+   or the bound name, the unlinked names and the stem of the locked name are the configured path; the byte-string
+   model of an accepted path is then in lock step with StartModel (StartPathProofs.run_sim), which carries the
+   theorems above to byte-string names for every path length. *)
 From Coq Require Import List Arith NArith Bool.
 From MV.gen Require Import GenStart.
-From MV Require Import StartModel StartProofs.
+From Coq.Strings Require Import Byte.
+From MV Require Import Bytes StartModel StartProofs StartPathModel StartPathProofs.
 Import ListNotations.
 
 (* For every number of processes and every interleaving of their start-up steps and SIGKILLs:
@@ -146,3 +155,135 @@ Proof. vm_compute. reflexivity. Qed.
 
 Example C15_quiet_init : quiet init /\ run init [] = Some init.
 Proof. split; [intros p; cbn; discriminate|reflexivity]. Qed.
+
+(* ================= path names as byte strings ================= *)
+
+(* what sock_create / lock.c / str.c do with the configured name, as regenerated from the current source:
+   a name that passes the length test is shorter than the strlcpy size (copied whole); the copy stays inside
+   sun_path; the lock name of every accepted name fits strdupf's buffer; the longest name sun_path can hold with
+   its NUL is accepted. *)
+Theorem C15_path_source_facts :
+  (forall n, sock_len_refuses n = false -> (n < sock_copy_size)%N) /\
+  (sock_copy_size <= sun_path_cap)%N /\
+  (sock_copy_size + N.of_nat (length lock_suffix) <= lock_name_max)%N /\
+  lock_suffix <> [] /\
+  sock_len_refuses (N.pred sun_path_cap) = false.
+Proof. exact (conj f_accepted_fits (conj f_copy_within_sun_path (conj f_lock_name_fits (conj f_lock_suffix_nonempty f_longest_accepted)))). Qed.
+Print Assumptions C15_path_source_facts.
+
+(* For every configured socket path (any length, any bytes): the start is refused at the bind step, or the name
+   that is bound is the configured name (which is also the name unlinked as stale socket and at shutdown) and the
+   name that is locked is the configured name ++ ".lock". *)
+Theorem C15_path_names_agree : forall c,
+  refuses c = true \/
+  (bind_name c = c_sock c /\ lock_name_of (c_sock c) = c_sock c ++ lock_suffix).
+Proof. exact path_names_agree. Qed.
+Print Assumptions C15_path_names_agree.
+
+(* An accepted configuration runs exactly StartModel's program, its four tokens read as the configured names. *)
+Theorem C15_path_program : forall c, refuses c = false -> cprog c = map (concretize (interp c)) prog.
+Proof. exact cprog_refines. Qed.
+Print Assumptions C15_path_program.
+
+(* A refused configuration: position 4 of its program is the failing bind step, which leaves the state as it was;
+   in every schedule, with any other daemons on any other paths, the process never holds a socket, never listens,
+   never reaches service. *)
+Theorem C15_path_refused_binds_nothing : forall cf sched cs p,
+  refuses (cf p) = true -> crun (cinit cf) sched = Some cs ->
+  (nth_error (cprog (cf p)) 4 = Some (CBind true (bind_name (cf p))) /\
+   forall s q pr nm, cexec s q pr (CBind true nm) = CFail s) /\
+  sockfd (cprocs cs p) = None /\ (forall j, clistener cs j <> Some p) /\ cat_serve cs p = false.
+Proof. exact (fun cf sched cs p Hr Hrun => conj (cprog_refused (cf p) Hr) (refused_never_binds cf sched cs p Hr Hrun)). Qed.
+Print Assumptions C15_path_refused_binds_nothing.
+
+(* Two accepted configurations that bind the same name are configured with the same socket path and use the same
+   lock file: "one daemon per bound name" reduces to "one daemon per lock". *)
+Theorem C15_path_one_name_one_lock : forall c d, refuses c = false -> refuses d = false ->
+  bind_name c = bind_name d -> c_sock c = c_sock d /\ lock_name_of (c_sock c) = lock_name_of (c_sock d).
+Proof. exact bind_name_injective. Qed.
+Print Assumptions C15_path_one_name_one_lock.
+
+(* Whatever its configuration (accepted or not, any length), a step of a daemon changes the directory entry of no
+   name other than its lock name, its configured socket name, its pid and seed names; SIGKILL and SIGTERM change
+   none.  In particular no daemon ever binds or unlinks a shortened form of its socket name. *)
+Theorem C15_path_frame : forall cs l cs' nm, cstep cs l = Some cs' ->
+  match l with
+  | Step q => ~ In nm (site_names (cconf cs q)) -> cnames cs' nm = cnames cs nm
+  | _ => cnames cs' nm = cnames cs nm
+  end.
+Proof. exact step_frame. Qed.
+Print Assumptions C15_path_frame.
+
+(* C15_single_holder at byte-string names, for every accepted socket path. *)
+Theorem C15_path_single_holder : forall c hist cs0 sched cs,
+  conf_wf c = true -> refuses c = false ->
+  crun (cinit (fun _ => c)) hist = Some cs0 -> cquiet cs0 ->
+  starts_and_crashes sched = true -> crun cs0 sched = Some cs ->
+  (forall p q, cpast_setlk cs p -> cpast_setlk cs q -> p = q) /\
+  (forall p, cat_serve cs p = true -> cserving c cs p = true).
+Proof. exact path_single_holder. Qed.
+Print Assumptions C15_path_single_holder.
+
+(* C15_winner_undisturbed at byte-string names. *)
+Theorem C15_path_winner_undisturbed : forall c hist cs0 pre cs1 w sched cs2,
+  conf_wf c = true -> refuses c = false ->
+  crun (cinit (fun _ => c)) hist = Some cs0 -> cquiet cs0 ->
+  starts_and_crashes pre = true -> crun cs0 pre = Some cs1 -> cserving c cs1 w = true ->
+  Forall (fun l => no_term l /\ l <> Crash w) sched -> crun cs1 sched = Some cs2 ->
+  cserving c cs2 w = true /\
+  cnames cs2 (c_sock c) = cnames cs1 (c_sock c) /\
+  cnames cs2 (c_sock c ++ lock_suffix) = cnames cs1 (c_sock c ++ lock_suffix) /\
+  cnames cs2 (c_pid c) = cnames cs1 (c_pid c) /\ cprocs cs2 w = cprocs cs1 w.
+Proof. exact path_winner_undisturbed. Qed.
+Print Assumptions C15_path_winner_undisturbed.
+
+(* C15_crash_then_start at byte-string names. *)
+Theorem C15_path_crash_then_start : forall c sched cs q,
+  conf_wf c = true -> refuses c = false ->
+  crun (cinit (fun _ => c)) sched = Some cs -> cquiet cs -> st (cprocs cs q) = NotStarted ->
+  exists cs', crun cs (repeat (Step q) serve_pc) = Some cs' /\ cserving c cs' q = true.
+Proof. exact path_crash_then_start. Qed.
+Print Assumptions C15_path_crash_then_start.
+
+(* Clean stop on an accepted path: the configured socket name, the name that was bound, the lock name the program
+   computed and the pid name are all gone; a new seed file exists; the process holds nothing. *)
+Theorem C15_path_clean_stop : forall c cs p,
+  conf_wf c = true -> refuses c = false -> (forall q, cconf cs q = c) ->
+  st (cprocs cs p) = Running -> pc (cprocs cs p) = serve_pc ->
+  exists cs', crun cs (Term p :: repeat (Step p) (length shutdown)) = Some cs' /\
+    st (cprocs cs' p) = Exited /\
+    cnames cs' (c_sock c) = None /\ cnames cs' (bind_name c) = None /\
+    cnames cs' (lock_name_of (c_sock c)) = None /\ cnames cs' (c_pid c) = None /\
+    (exists f, cnames cs' (c_seed c) = Some f /\ cnext cs <= f /\ cinodes cs' f = seed_inode) /\
+    (forall i, clockown cs' i <> Some p) /\ (forall j, clistener cs' j <> Some p).
+Proof. exact path_clean_stop. Qed.
+Print Assumptions C15_path_clean_stop.
+
+(* non-vacuity at the boundary: socket paths of sun_path_cap-2 .. sun_path_cap+1 bytes.  The two shorter ones are
+   accepted, live a whole life and leave no name behind; the two longer ones are refused with nothing bound under
+   the full or any shortened name; Q refused on a sun_path_cap-byte path L does not keep P from serving on L's
+   (sun_path_cap-1)-byte prefix, and P's socket is P's. *)
+Definition c15_path (n : nat) : bytes := repeat "s"%byte n.
+Definition c15_conf (n : nat) (tag : byte) : conf := mkConf (c15_path n) ["p"%byte; tag] ["r"%byte; tag].
+Definition c15_cap : nat := N.to_nat sun_path_cap.
+Example C15_path_boundary_example :
+  forallb (fun n => conf_wf (c15_conf n "0"%byte) && Bool.eqb (refuses (c15_conf n "0"%byte)) (c15_cap <=? n))
+          [c15_cap - 2; c15_cap - 1; c15_cap; c15_cap + 1] = true
+  /\ forallb (fun n =>
+        match crun (cinit (fun _ => c15_conf n "0"%byte)) (repeat (Step 0) serve_pc) with
+        | Some s => cserving (c15_conf n "0"%byte) s 0 | None => false end
+        && match crun (cinit (fun _ => c15_conf n "0"%byte)) (life 0) with
+           | Some s => negb (existsb (fun k => match cnames s (firstn k (c15_path n ++ lock_suffix)) with Some _ => true | None => false end)
+                                     (seq 0 (n + 7)))
+           | None => false end) [c15_cap - 2; c15_cap - 1] = true
+  /\ forallb (fun n =>
+        match crun (cinit (fun _ => c15_conf n "0"%byte)) (repeat (Step 0) 5) with
+        | Some s => Nat.eqb (status_code (st (cprocs s 0))) 2
+                    && negb (existsb (fun k => is_sock s (firstn k (c15_path n))) (seq 0 (n + 2)))
+        | None => false end) [c15_cap; c15_cap + 1] = true
+  /\ match crun (cinit (fun p => if Nat.eqb p 0 then c15_conf c15_cap "0"%byte else c15_conf (c15_cap - 1) "1"%byte))
+                (repeat (Step 0) 5 ++ repeat (Step 1) serve_pc) with
+     | Some s => cserving (c15_conf (c15_cap - 1) "1"%byte) s 1 && Nat.eqb (status_code (st (cprocs s 0))) 2
+                 && opt_is (name_listener s (c15_path (c15_cap - 1))) 1
+     | None => false end = true.
+Proof. repeat split; vm_compute; reflexivity. Qed.
